@@ -209,7 +209,7 @@ func ruleCtxArmIn(c *Ctx, r *R, onlyRel string) {
 			if cal := staticCallee(&call.Call); cal != nil && c.inModule(cal) && cal.Parent() == nil {
 				if why := blocksWithoutCtx(cal); why != "" {
 					nc++
-					r.violated(name+"|blocking-call:"+cal.Name()+"#"+itoa(nc), call.Pos(), "call of "+funcShort(cal)+", which contains "+why+" and takes no context, in a function that takes a context: it cannot be interrupted when the context ends")
+					r.violated(name+"|blocking-call:"+fname(cal)+"#"+itoa(nc), call.Pos(), "call of "+funcShort(cal)+", which contains "+why+" and takes no context, in a function that takes a context: it cannot be interrupted when the context ends")
 				}
 			}
 		})
